@@ -83,15 +83,26 @@ def tb_str(vhct):
 
 
 def node_of_point(part, pt):
-    for nd in part._all:
-        if nd.get_cpoint() is pt:
-            return nd
+    parts = part if isinstance(part, list) else [part]
+    for p in parts:
+        for nd in p._all:
+            if nd.get_cpoint() is pt:
+                return nd
     return None
 
 
 # ------------------------------------------------------------------ per-algorithm adapters
 class Adapter:
     name = None
+
+    def parts(self, a):
+        return [a.partition]
+
+    def pull_suffix(self, a, ctx):
+        return ""
+
+    def pt_str(self, a, parts, pt):
+        return f"pt {vid(node_of_point(parts, pt))} {flist(pt)}"
     def gen_params(self, rnd, T): ...
     def construct(self, params, box, pcls): ...
     def init_line(self, params, kind, K, box, calls): ...
@@ -286,7 +297,176 @@ class SequOOLAd(Adapter):
                 f"depth={part.get_depth()} layers={layers_str(part)} nodes={delta.dump(node_strs(part, sq_str))}")
 
 
-ADAPTERS = {a.name: a for a in [HOOAd(), HCTAd(), VHCTAd(), SOOAd(), DOOAd(), StoSOOAd(), SequOOLAd()]}
+def recording_base(base_name, log):
+    """Subclass of the real base learner with the same __name__ (POO/GPO dispatch on it) that
+    records constructor arguments and every pull/receive_reward it is given."""
+    import importlib
+    mod = {"T_HOO": "PyXAB.algos.HOO", "HCT": "PyXAB.algos.HCT", "VHCT": "PyXAB.algos.VHCT"}[base_name]
+    base = getattr(importlib.import_module(mod), base_name)
+
+    class Rec(base):
+        def __init__(self, *a, **kw):
+            base.__init__(self, *a, **kw)
+            self._lid = len(log["created"])
+            self._rewards = []
+            self._pulls = 0
+            log["created"].append({"kw": {k: v for k, v in kw.items() if k in ("nu", "rho", "rounds")}, "obj": self})
+
+        def pull(self, time):
+            self._pulls += 1
+            log["events"].append(("pull", self._lid))
+            return base.pull(self, time)
+
+        def receive_reward(self, time, reward):
+            self._rewards.append(reward)
+            log["events"].append(("recv", self._lid, reward))
+            return base.receive_reward(self, time, reward)
+
+    Rec.__name__ = base_name
+    Rec.__qualname__ = base_name
+    return Rec
+
+
+LEARNER_ADS = {"T_HOO": HOOAd(), "HCT": HCTAd(), "VHCT": VHCTAd()}
+
+
+class POOAd(Adapter):
+    name = "POO"
+
+    def gen_params(self, rnd, T):
+        return {"base": rnd.choice(["T_HOO", "HCT", "VHCT"]), "numax": rnd.choice([1.0, 0.5, 2.0]),
+                "rhomax": rnd.choice([0.9, 0.85, 0.95, 0.99, 0.84]), "rounds": rnd.choice([T, 1000, 10 * T])}
+
+    def construct(self, p, box, pcls):
+        from PyXAB.algos.POO import POO
+        self.log = {"created": [], "events": []}
+        a = POO(numax=p["numax"], rhomax=p["rhomax"], rounds=p["rounds"], domain=box, partition=pcls,
+                algo=recording_base(p["base"], self.log))
+        a._log = self.log
+        a._deltas = {}
+        a._touched = None
+        a._nl_seen = 0
+        return a
+
+    def parts(self, a):
+        return [l.partition for l in a.V_algo]
+
+    def init_line(self, p, kind, K, box, calls, algo=None):
+        return (f"POO.init {p['base']} {kind_str(kind, K)} {box_str(box)} {fbits(p['numax'])} {fbits(p['rhomax'])} "
+                f"{p['rounds']} {fbits(algo.Dmax)}"), "ok"
+
+    def pull_suffix(self, a, ctx):
+        s_ = ""
+        if len(a.V_algo) > a._nl_seen:
+            a._nl_seen = len(a.V_algo)
+            l = a.V_algo[-1]
+            if hasattr(l, "c1"):
+                s_ = f" c1 {fbits(l.c1)}"
+        return s_
+
+    def owner(self, a, pt):
+        for i, l in enumerate(a.V_algo):
+            for nd in l.partition._all:
+                if nd.get_cpoint() is pt:
+                    return i, nd
+        return None, None
+
+    def pt_str(self, a, parts, pt):
+        i, nd = self.owner(a, pt)
+        a._touched = i
+        return f"pt {vid(nd)} {flist(pt)}"
+
+    def dump(self, a, delta):
+        i = a._touched
+        if i is None:
+            ld = "-"
+        else:
+            l = a.V_algo[i]
+            d = a._deltas.setdefault(i, Delta())
+            ld = f"L{i}:" + LEARNER_ADS[type(l).__name__].dump(l, d)
+        ac = getattr(a, "algo_counter", None)
+        return (f"N={a.N} n={a.n} phase={a.phase} counter={a.counter} ac={'-' if ac is None else ac} nl={len(a.V_algo)} "
+                f"V={flist(a.V_reward)} times=[{','.join(str(int(x)) for x in a.Times)}] {ld}")
+
+
+class GPOAd(Adapter):
+    name = "GPO"
+    wrapper = None     # "PCT" / "VPCT" for the fixed-base wrappers
+
+    def gen_params(self, rnd, T):
+        base = {"PCT": "HCT", "VPCT": "VHCT"}.get(self.wrapper) or rnd.choice(["T_HOO", "HCT", "VHCT"])
+        return {"base": base, "numax": rnd.choice([1.0, 0.5, 2.0]),
+                "rhomax": rnd.choice([0.5, 0.6, 0.7, 0.75, 0.8, 0.4]), "rounds": rnd.choice([T, T, 100, 2 * T])}
+
+    def gpo(self, a):
+        return a.algorithm if self.wrapper else a
+
+    def construct(self, p, box, pcls):
+        self.log = {"created": [], "events": []}
+        rec = recording_base(p["base"], self.log)
+        if self.wrapper:
+            import importlib
+            m = importlib.import_module(f"PyXAB.algos.{self.wrapper}")
+            saved = getattr(m, p["base"])
+            setattr(m, p["base"], rec)
+            try:
+                a = getattr(m, self.wrapper)(numax=p["numax"], rhomax=p["rhomax"], rounds=p["rounds"], domain=box, partition=pcls)
+            finally:
+                setattr(m, p["base"], saved)
+        else:
+            from PyXAB.algos.GPO import GPO
+            a = GPO(numax=p["numax"], rhomax=p["rhomax"], rounds=p["rounds"], domain=box, partition=pcls, algo=rec)
+        a._log = self.log
+        a._deltas = {}
+        a._created_seen = 0
+        return a
+
+    def parts(self, a):
+        return [e["obj"].partition for e in a._log["created"]]
+
+    def init_line(self, p, kind, K, box, calls, algo=None):
+        g = self.gpo(algo)
+        return (f"GPO.init {p['base']} {kind_str(kind, K)} {box_str(box)} {fbits(p['numax'])} {fbits(p['rhomax'])} "
+                f"{p['rounds']} {fbits(g.N)} {fbits(g.half_phase_length)}"), "ok"
+
+    def pull_suffix(self, a, ctx):
+        s_ = ""
+        if len(a._log["created"]) > a._created_seen:
+            a._created_seen = len(a._log["created"])
+            l = a._log["created"][-1]["obj"]
+            if hasattr(l, "c1"):
+                s_ = f" c1 {fbits(l.c1)}"
+        return s_
+
+    def pt_str(self, a, parts, pt):
+        return f"pt {flist(pt)}"
+
+    def dump(self, a, delta):
+        g = self.gpo(a)
+        l = g.curr_algo
+        if l is None:
+            ld = "-"
+        else:
+            d = a._deltas.setdefault(id(l), Delta())
+            ld = LEARNER_ADS[type(l).__name__].dump(l, d)
+        gx = "-" if g.goodx is None else flist(g.goodx)
+        lv = flist(g.V_x[-1]) if g.V_x else "-"
+        return (f"phase={int(g.phase)} counter={int(g.counter)} created={len(a._log['created'])} goodx={gx} nVx={len(g.V_x)} "
+                f"lastVx={lv} V={flist(g.V_reward)} L:{ld}")
+
+
+class PCTAd(GPOAd):
+    name = "PCT"
+    wrapper = "PCT"
+
+
+class VPCTAd(GPOAd):
+    name = "VPCT"
+    wrapper = "VPCT"
+
+
+ADAPTERS = {a.name: a for a in [HOOAd(), HCTAd(), VHCTAd(), SOOAd(), DOOAd(), StoSOOAd(), SequOOLAd(),
+                                POOAd(), GPOAd(), PCTAd(), VPCTAd()]}
 
 
 # ------------------------------------------------------------------ generic case
@@ -319,6 +499,9 @@ def gen_algo_case(seed, idx, algo=None, force=None, monitors_on=True, T=None, ho
     hooks = hooks or {}
     reward_fn = make_reward_fn(rnd, rmode, box)
     query_rounds = set(rnd.sample(range(T), min(n_queries, T))) if ad.name in ("T_HOO", "HCT", "VHCT", "Zooming", "POO") else set()
+    if ad.name in ("POO", "GPO", "PCT", "VPCT"):
+        import copy as _copy
+        ad = _copy.copy(ad)      # adapters of wrappers keep per-case state
     delta = Delta()
     ctx = {"case": case, "ad": ad, "meta": meta, "rewards": [], "points": [], "pulled": [], "box": box, "kind": kind, "K": K}
     user_box = [list(iv) for iv in box]
@@ -336,17 +519,21 @@ def gen_algo_case(seed, idx, algo=None, force=None, monitors_on=True, T=None, ho
             case.fail("C01", "construct-exception", f"{type(e).__name__}: {e}", algo=ad.name, exc=type(e).__name__)
             return case
         ctx["algo"] = a
-        part = a.partition
+        glog = pcls._glog
+        parts = lambda: ad.parts(a)
+        part = parts()[0] if parts() else None
         ctx["part"] = part
+        ctx["parts"] = parts
         try:
-            line, exp = ad.init_line(params, kind, K, box, part._calls, a)
+            line, exp = ad.init_line(params, kind, K, box, list(glog), a)
         except TypeError:
-            line, exp = ad.init_line(params, kind, K, box, part._calls)
+            line, exp = ad.init_line(params, kind, K, box, list(glog))
         case.op(line, exp)
         case.op("A.dump", ad.dump(a, delta))
         if monitors_on:
-            for sig, det in monitors.c03_tree(part):
-                case.fail("C03", sig, det, step="init", algo=ad.name, via="algorithm", kind=kind)
+            for p_ in parts():
+                for sig, det in monitors.c03_tree(p_):
+                    case.fail("C03", sig, det, step="init", algo=ad.name, via="algorithm", kind=kind)
         if "after_init" in hooks:
             hooks["after_init"](ctx)
         for i in range(T):
@@ -354,32 +541,31 @@ def gen_algo_case(seed, idx, algo=None, force=None, monitors_on=True, T=None, ho
             if i in query_rounds:
                 try:
                     q = guarded(a.get_last_point)
-                    nd = node_of_point(part, q)
-                    case.op("A.last", f"pt {vid(nd)} {flist(q)}")
+                    case.op("A.last", ad.pt_str(a, parts(), q))
                     case.tags["op=query"] += 1
                 except Exception as e:
                     case.op("A.last", "ERR " + exc_name(e))
                     case.fail("C01", "get_last_point-exception", f"{type(e).__name__}: {e}", step=i, algo=ad.name, exc=type(e).__name__)
                     case.stopped = "query"
                     break
-            mark = len(part._calls)
+            mark = len(glog)
             if "before_pull" in hooks:
                 hooks["before_pull"](ctx, i)
             try:
                 pt = guarded(a.pull, t)
             except Exception as e:
-                case.op(f"A.pull {t} {draws_str(part._calls[mark:])}", "ERR " + exc_name(e))
+                case.op(f"A.pull {t} {draws_str(glog[mark:])}", "ERR " + exc_name(e))
                 case.fail("C01", "pull-exception", f"{type(e).__name__}: {e}", step=i, algo=ad.name, exc=type(e).__name__)
                 case.stopped = "pull"
                 break
-            nd = node_of_point(part, pt) if pt is not None else None
-            pull_line = f"A.pull {t} {draws_str(part._calls[mark:])}"
+            nd = node_of_point(parts(), pt) if pt is not None else None
+            pull_line = f"A.pull {t} {draws_str(glog[mark:])}" + ad.pull_suffix(a, ctx)
             if pt is None:
                 case.op(pull_line, "ERR ReturnedNone")
                 case.fail("C01", "pull-returned-none", "pull returned None", step=i, algo=ad.name)
                 case.stopped = "pull-none"
                 break
-            case.op(pull_line, f"pt {vid(nd)} {flist(pt)}")
+            case.op(pull_line, ad.pt_str(a, parts(), pt))
             ctx["points"].append(list(pt)); ctx["pulled"].append(nd)
             if monitors_on:
                 monitors.c01_point(case, box, pt, i, ad.name)
@@ -387,26 +573,26 @@ def gen_algo_case(seed, idx, algo=None, force=None, monitors_on=True, T=None, ho
                 hooks["after_pull"](ctx, i, pt)
             r = float(reward_fn(i, pt))
             ctx["rewards"].append(r)
-            mark = len(part._calls)
+            mark = len(glog)
             try:
                 guarded(a.receive_reward, t, r)
             except Exception as e:
-                case.op(f"A.recv {fbits(r)} {draws_str(part._calls[mark:])}", "ERR " + exc_name(e))
+                case.op(f"A.recv {fbits(r)} {draws_str(glog[mark:])}", "ERR " + exc_name(e))
                 case.fail("C01", "receive-exception", f"{type(e).__name__}: {e}", step=i, algo=ad.name, exc=type(e).__name__)
                 case.stopped = "recv"
                 break
-            case.op(f"A.recv {fbits(r)} {draws_str(part._calls[mark:])}", "ok")
+            case.op(f"A.recv {fbits(r)} {draws_str(glog[mark:])}", "ok")
             case.op("A.dump", ad.dump(a, delta))
             if monitors_on:
-                for sig, det in monitors.c03_tree(part):
-                    case.fail("C03", sig, det, step=i, algo=ad.name, via="algorithm", kind=kind); break
+                for p_ in parts():
+                    for sig, det in monitors.c03_tree(p_):
+                        case.fail("C03", sig, det, step=i, algo=ad.name, via="algorithm", kind=kind); break
             if "after_recv" in hooks:
                 hooks["after_recv"](ctx, i, pt, r)
         if case.stopped is None:
             try:
                 q = guarded(a.get_last_point)
-                ndq = node_of_point(part, q)
-                case.op("A.last", f"pt {vid(ndq)} {flist(q)}")
+                case.op("A.last", ad.pt_str(a, parts(), q))
                 ctx["last"] = q
                 if monitors_on:
                     monitors.c01_point(case, box, q, "end", ad.name, what="get_last_point")
@@ -417,7 +603,7 @@ def gen_algo_case(seed, idx, algo=None, force=None, monitors_on=True, T=None, ho
                 hooks["at_end"](ctx)
         if user_box != box:
             case.fail("C14", "domain-mutated", "user domain object modified", algo=ad.name)
-    meta["n_nodes"] = len(part._all)
+    meta["n_nodes"] = sum(len(p_._all) for p_ in parts())
     meta["rounds_done"] = len(ctx["rewards"])
     return case
 
